@@ -776,6 +776,13 @@ func (p *sqlParser) cmpExpr() (*sqlExpr, error) {
 			if err != nil {
 				return nil, err
 			}
+			if p.acceptKw("escape") {
+				esc, err := p.addExpr()
+				if err != nil {
+					return nil, err
+				}
+				return &sqlExpr{Op: "like-escape", Args: []*sqlExpr{l, r, esc}}, nil
+			}
 			return &sqlExpr{Op: "like", Args: []*sqlExpr{l, r}}, nil
 		case "is":
 			p.next()
@@ -1096,6 +1103,8 @@ func canonExpr(e *sqlExpr, own string, b binder) string {
 		return canonOperand(e.Args[1], own, b) + " <= " + canonOperand(e.Args[0], own, b)
 	case "like", "@>":
 		return canonOperand(e.Args[0], own, b) + " " + strings.ToUpper(e.Op) + " " + canonOperand(e.Args[1], own, b)
+	case "like-escape":
+		return canonOperand(e.Args[0], own, b) + " LIKE " + canonOperand(e.Args[1], own, b) + " ESCAPE " + canonOperand(e.Args[2], own, b)
 	case "+", "&", "|":
 		l, r := canonOperand(e.Args[0], own, b), canonOperand(e.Args[1], own, b)
 		if r < l {
